@@ -169,6 +169,14 @@ func (v *Verifier) applyCall(st *State, tg *callTarget, bind ssa.Value, b *ssa.B
 	fn := tg.static
 	org := originOf(fn)
 	full := org.String()
+	// nocalls: the verified function itself (its own body and what is inlined into it) must never reach such a callee
+	if v.curCon != nil && v.col == nil {
+		for _, nc := range v.curCon.NoCalls {
+			if strings.HasPrefix(full, nc.Src) {
+				v.emit(st, "frame", "nocall:"+nc.Label, nc.Tags, tFalse, "this function must not call "+nc.Src+"... itself (it calls "+full+")", posOf(in.Parent(), in.Pos()))
+			}
+		}
+	}
 	// sync.Pool
 	if full == "(*sync.Pool).Get" || full == "(*sync.Pool).Put" {
 		v.poolCall(st, tg, bind, in, full)
